@@ -173,25 +173,14 @@ def _shared_list_sites(fn):
 
 
 def rule_r3(repo):
-    rr = RuleResult('C05.R3', 'subsets share one descriptor / link / node list only when the data are compressed')
-    n = 0
-    for cname in ('CoderState', 'TemplateData'):
-        fi = repo.own_method(cname, '__init__')
-        sites = _shared_list_sites(fi.node)
-        for node, arm in sites:
-            n += 1
-            rr.instance('%s.__init__: %s (%s arm)' % (cname, norm(node), arm))
-            if arm != 'compressed':
-                rr.fail('%s.__init__:shared:%s' % (cname, norm(node)), '%s:%d' % (fi.module.relpath, node.lineno),
-                        '%s makes every subset share one mutable list outside the compressed arm: uncompressed subsets would overwrite each other' % norm(node))
-        # the per-subset value lists are never shared
-        for node in ast.walk(fi.node):
-            if isinstance(node, ast.Assign) and any(norm(t) == 'self.decoded_values_all_subsets' for t in node.targets):
-                if isinstance(node.value, ast.BinOp):
-                    rr.fail('%s.__init__:values-shared' % cname, '%s:%d' % (fi.module.relpath, node.lineno), 'value lists are shared between subsets')
-    if n < 3:
-        raise AnalysisError('expected >= 3 shared-list sites under is_compressed (found %d)' % n)
-    rr.require_floor(3)
+    from sa.rules import c06
+    return c06.rule_alias(repo, 'C05.R3', (True,))
+
+
+def rule_r10(repo):
+    from sa.rules import c06
+    rr = c06.rule_r3(repo, 'C05.R10', (True,))
+    rr.title = 'compressed data are wired once, on the records all subsets share (fold of wire())'
     return rr
 
 
@@ -302,6 +291,7 @@ def run(repo, check):
     check.run_rule(rule_r1, repo)
     check.run_rule(rule_r2, repo)
     check.run_rule(rule_r3, repo)
+    check.run_rule(rule_r10, repo)
     check.run_rule(rule_r4, repo)
     r5 = c02.rule_r1(repo, check.tier)
     r5.rule = 'C05.R5'
